@@ -1,231 +1,8 @@
-/-
-GENERATED by tools/gen_regmap.py from /repo — do not edit; re-emitted on every `./check C13`.
-  source device/src/u3v/register_map.rs sha256 55d8004a51d97fa8
-  source cameleon/src/u3v/register_map.rs sha256 64e25c741de88b56
+/- gen_regmap.py refused the current /repo sources:
+gen_regmap: REFUSED: `impl DumpBytes for &str` changed; the model mirrors
+    if !self.is_ascii() { return Err(ControlError::InvalidData("string encoding must be ascii".into())); } if self.contains('\0') { return Err(ControlError::InvalidData("string must not contain NUL character".into())); } let data_len = self.len(); if data_len > buf.len() { return Err(ControlError::InvalidData("too large string".into())); } buf[..data_len].copy_from_slice(self.as_bytes()); if data_len < buf.len() { buf[data_len] = 0; } Ok(())
+  but the source has
+    if !self.is_ascii() { return Err(ControlError::InvalidData("string encoding must be ascii".into())); } if self.contains('\0') { return Err(ControlError::InvalidData("string must not contain NUL character".into())); } let data_len = self.len(); if data_len > buf.len() { return Err(ControlError::InvalidData("too large string".into())); } buf[..data_len].copy_from_slice(self.as_bytes()); let terminator = data_len.min(buf.len().saturating_sub(1)); if let Some(byte) = buf.get_mut(terminator) { *byte = 0; } Ok(())
 -/
-import CamVerif.Model.RegMapTypes
-namespace CamVerif.Gen.RegMap
-open CamVerif.RegMap
-
-/-- `device/src/u3v/register_map.rs`, `pub mod abrm`: (constant, offset, length) -/
-def abrm : List (String × Nat × Nat) := [
-  ("GENCP_VERSION", 0x0000, 4),
-  ("MANUFACTURER_NAME", 0x0004, 64),
-  ("MODEL_NAME", 0x0044, 64),
-  ("FAMILY_NAME", 0x0084, 64),
-  ("DEVICE_VERSION", 0x00C4, 64),
-  ("MANUFACTURER_INFO", 0x0104, 64),
-  ("SERIAL_NUMBER", 0x0144, 64),
-  ("USER_DEFINED_NAME", 0x0184, 64),
-  ("DEVICE_CAPABILITY", 0x01C4, 8),
-  ("MAXIMUM_DEVICE_RESPONSE_TIME", 0x01CC, 4),
-  ("MANIFEST_TABLE_ADDRESS", 0x01D0, 8),
-  ("SBRM_ADDRESS", 0x01D8, 8),
-  ("DEVICE_CONFIGURATION", 0x01E0, 8),
-  ("HEARTBEAT_TIMEOUT", 0x01E8, 4),
-  ("MESSAGE_CHANNEL_ID", 0x01EC, 4),
-  ("TIMESTAMP", 0x01F0, 8),
-  ("TIMESTAMP_LATCH", 0x01F8, 4),
-  ("TIMESTAMP_INCREMENT", 0x01FC, 8),
-  ("ACCESS_PRIVILEGE", 0x0204, 4),
-  ("PROTOCOL_ENDIANNESS", 0x0208, 4),
-  ("IMPLEMENTATION_ENDIANNESS", 0x020C, 4),
-  ("DEVICE_SOFTWARE_INTERFACE_VERSION", 0x0210, 64)
-]
-
-/-- `device/src/u3v/register_map.rs`, `pub mod sbrm`: (constant, offset, length) -/
-def sbrm : List (String × Nat × Nat) := [
-  ("U3V_VERSION", 0x0000, 4),
-  ("U3VCP_CAPABILITY_REGISTER", 0x0004, 8),
-  ("U3VCP_CONFIGURATION_REGISTER", 0x000C, 8),
-  ("MAXIMUM_COMMAND_TRANSFER_LENGTH", 0x0014, 4),
-  ("MAXIMUM_ACKNOWLEDGE_TRANSFER_LENGTH", 0x0018, 4),
-  ("NUMBER_OF_STREAM_CHANNELS", 0x001C, 4),
-  ("SIRM_ADDRESS", 0x0020, 8),
-  ("SIRM_LENGTH", 0x0028, 4),
-  ("EIRM_ADDRESS", 0x002C, 8),
-  ("EIRM_LENGTH", 0x0034, 4),
-  ("IIDC2_ADDRESS", 0x0038, 8),
-  ("CURRENT_SPEED", 0x0040, 4)
-]
-
-/-- `device/src/u3v/register_map.rs`, `pub mod eirm`: (constant, offset, length) -/
-def eirm : List (String × Nat × Nat) := [
-  ("EI_CONTROL", 0x0000, 4),
-  ("MAXIMUM_EVENT_TRANSFER_LENGTH", 0x0004, 4),
-  ("EVENT_TEST_CONTROL", 0x0008, 4)
-]
-
-/-- `device/src/u3v/register_map.rs`, `pub mod sirm`: (constant, offset, length) -/
-def sirm : List (String × Nat × Nat) := [
-  ("SI_INFO", 0x0000, 4),
-  ("SI_CONTROL", 0x0004, 4),
-  ("REQUIRED_PAYLOAD_SIZE", 0x0008, 8),
-  ("REQUIRED_LEADER_SIZE", 0x0010, 4),
-  ("REQUIRED_TRAILER_SIZE", 0x0014, 4),
-  ("MAXIMUM_LEADER_SIZE", 0x0018, 4),
-  ("PAYLOAD_TRANSFER_SIZE", 0x001C, 4),
-  ("PAYLOAD_TRANSFER_COUNT", 0x0020, 4),
-  ("PAYLOAD_FINAL_TRANSFER1_SIZE", 0x0024, 4),
-  ("PAYLOAD_FINAL_TRANSFER2_SIZE", 0x0028, 4),
-  ("MAXIMUM_TRAILER_SIZE", 0x002C, 4)
-]
-
-/-- `device/src/u3v/register_map.rs`, `pub mod manifest_entry`: (constant, offset, length) -/
-def manifestEntry : List (String × Nat × Nat) := [
-  ("GENICAM_FILE_VERSION", 0x0000, 4),
-  ("FILE_FORMAT_INFO", 0x0004, 4),
-  ("REGISTER_ADDRESS", 0x0008, 8),
-  ("FILE_SIZE", 0x0010, 8),
-  ("SHA1_HASH", 0x0018, 20)
-]
-
-/-- register module name ↦ its table -/
-def tables : List (String × List (String × Nat × Nat)) := [
-  ("abrm", abrm),
-  ("sbrm", sbrm),
-  ("eirm", eirm),
-  ("sirm", sirm),
-  ("manifest_entry", manifestEntry)
-]
-
-/-- accessors with a uniform body, and the single-register decoders of the HAND list -/
-def accessors : List Row := [
-  ⟨"Abrm.gencp_version", .abrm, .get, "abrm", "GENCP_VERSION", .ver1616, none⟩,
-  ⟨"Abrm.manufacturer_name", .abrm, .get, "abrm", "MANUFACTURER_NAME", .string, none⟩,
-  ⟨"Abrm.model_name", .abrm, .get, "abrm", "MODEL_NAME", .string, none⟩,
-  ⟨"Abrm.family_name", .abrm, .get, "abrm", "FAMILY_NAME", .string, some ("DeviceCapability", "is_family_name_supported")⟩,
-  ⟨"Abrm.device_version", .abrm, .get, "abrm", "DEVICE_VERSION", .string, none⟩,
-  ⟨"Abrm.manufacturer_info", .abrm, .get, "abrm", "MANUFACTURER_INFO", .string, none⟩,
-  ⟨"Abrm.serial_number", .abrm, .get, "abrm", "SERIAL_NUMBER", .string, none⟩,
-  ⟨"Abrm.user_defined_name", .abrm, .get, "abrm", "USER_DEFINED_NAME", .string, some ("DeviceCapability", "is_user_defined_name_supported")⟩,
-  ⟨"Abrm.set_user_defined_name", .abrm, .set, "abrm", "USER_DEFINED_NAME", .string, some ("DeviceCapability", "is_user_defined_name_supported")⟩,
-  ⟨"Abrm.manifest_table_address", .abrm, .get, "abrm", "MANIFEST_TABLE_ADDRESS", .u64, none⟩,
-  ⟨"Abrm.sbrm_address", .abrm, .get, "abrm", "SBRM_ADDRESS", .u64, none⟩,
-  ⟨"Abrm.timestamp", .abrm, .get, "abrm", "TIMESTAMP", .u64, none⟩,
-  ⟨"Abrm.set_timestamp_latch_bit", .abrm, (.setConst 1), "abrm", "TIMESTAMP_LATCH", .u32, none⟩,
-  ⟨"Abrm.timestamp_increment", .abrm, .get, "abrm", "TIMESTAMP_INCREMENT", .u64, none⟩,
-  ⟨"Abrm.device_software_interface_version", .abrm, .get, "abrm", "DEVICE_SOFTWARE_INTERFACE_VERSION", .string, some ("DeviceCapability", "is_device_software_interface_version_supported")⟩,
-  ⟨"Abrm.maximum_device_response_time", .abrm, .get, "abrm", "MAXIMUM_DEVICE_RESPONSE_TIME", .duration, none⟩,
-  ⟨"Abrm.device_configuration", .abrm, .get, "abrm", "DEVICE_CONFIGURATION", .deviceConfiguration, none⟩,
-  ⟨"Abrm.write_device_configuration", .abrm, .set, "abrm", "DEVICE_CONFIGURATION", .deviceConfiguration, none⟩,
-  ⟨"Sbrm.u3v_version", .sbrm, .get, "sbrm", "U3V_VERSION", .ver1616, none⟩,
-  ⟨"Sbrm.maximum_command_transfer_length", .sbrm, .get, "sbrm", "MAXIMUM_COMMAND_TRANSFER_LENGTH", .u32, none⟩,
-  ⟨"Sbrm.maximum_acknowledge_trasfer_length", .sbrm, .get, "sbrm", "MAXIMUM_ACKNOWLEDGE_TRANSFER_LENGTH", .u32, none⟩,
-  ⟨"Sbrm.number_of_stream_channel", .sbrm, .get, "sbrm", "NUMBER_OF_STREAM_CHANNELS", .u32, none⟩,
-  ⟨"Sbrm.sirm_address", .sbrm, .get, "sbrm", "SIRM_ADDRESS", .u64, some ("U3VCapablitiy", "is_sirm_available")⟩,
-  ⟨"Sbrm.sirm_length", .sbrm, .get, "sbrm", "SIRM_LENGTH", .u32, some ("U3VCapablitiy", "is_sirm_available")⟩,
-  ⟨"Sbrm.eirm_address", .sbrm, .get, "sbrm", "EIRM_ADDRESS", .u64, some ("U3VCapablitiy", "is_eirm_available")⟩,
-  ⟨"Sbrm.eirm_length", .sbrm, .get, "sbrm", "EIRM_LENGTH", .u32, some ("U3VCapablitiy", "is_eirm_available")⟩,
-  ⟨"Sbrm.iidc2_address", .sbrm, .get, "sbrm", "IIDC2_ADDRESS", .u64, some ("U3VCapablitiy", "is_iidc2_available")⟩,
-  ⟨"Sbrm.current_speed", .sbrm, .get, "sbrm", "CURRENT_SPEED", .busSpeed, none⟩,
-  ⟨"Sirm.payload_size_alignment", .sirm, .get, "sirm", "SI_INFO", .align, none⟩,
-  ⟨"Sirm.enable_stream", .sirm, (.setConst 1), "sirm", "SI_CONTROL", .u32, none⟩,
-  ⟨"Sirm.disable_stream", .sirm, (.setConst 0), "sirm", "SI_CONTROL", .u32, none⟩,
-  ⟨"Sirm.is_stream_enable", .sirm, .get, "sirm", "SI_CONTROL", .bit0, none⟩,
-  ⟨"Sirm.required_payload_size", .sirm, .get, "sirm", "REQUIRED_PAYLOAD_SIZE", .u64, none⟩,
-  ⟨"Sirm.required_leader_size", .sirm, .get, "sirm", "REQUIRED_LEADER_SIZE", .u32, none⟩,
-  ⟨"Sirm.required_trailer_size", .sirm, .get, "sirm", "REQUIRED_TRAILER_SIZE", .u32, none⟩,
-  ⟨"Sirm.maximum_leader_size", .sirm, .get, "sirm", "MAXIMUM_LEADER_SIZE", .u32, none⟩,
-  ⟨"Sirm.set_maximum_leader_size", .sirm, .set, "sirm", "MAXIMUM_LEADER_SIZE", .u32, none⟩,
-  ⟨"Sirm.maximum_trailer_size", .sirm, .get, "sirm", "MAXIMUM_TRAILER_SIZE", .u32, none⟩,
-  ⟨"Sirm.set_maximum_trailer_size", .sirm, .set, "sirm", "MAXIMUM_TRAILER_SIZE", .u32, none⟩,
-  ⟨"Sirm.payload_transfer_size", .sirm, .get, "sirm", "PAYLOAD_TRANSFER_SIZE", .u32, none⟩,
-  ⟨"Sirm.set_payload_transfer_size", .sirm, .set, "sirm", "PAYLOAD_TRANSFER_SIZE", .u32, none⟩,
-  ⟨"Sirm.payload_transfer_count", .sirm, .get, "sirm", "PAYLOAD_TRANSFER_COUNT", .u32, none⟩,
-  ⟨"Sirm.set_payload_transfer_count", .sirm, .set, "sirm", "PAYLOAD_TRANSFER_COUNT", .u32, none⟩,
-  ⟨"Sirm.payload_final_transfer1_size", .sirm, .get, "sirm", "PAYLOAD_FINAL_TRANSFER1_SIZE", .u32, none⟩,
-  ⟨"Sirm.set_payload_final_transfer1_size", .sirm, .set, "sirm", "PAYLOAD_FINAL_TRANSFER1_SIZE", .u32, none⟩,
-  ⟨"Sirm.payload_final_transfer2_size", .sirm, .get, "sirm", "PAYLOAD_FINAL_TRANSFER2_SIZE", .u32, none⟩,
-  ⟨"Sirm.set_payload_final_transfer2_size", .sirm, .set, "sirm", "PAYLOAD_FINAL_TRANSFER2_SIZE", .u32, none⟩,
-  ⟨"ManifestEntry.genicam_file_version", .manifestEntry, .get, "manifest_entry", "GENICAM_FILE_VERSION", .fileVer, none⟩,
-  ⟨"ManifestEntry.file_address", .manifestEntry, .get, "manifest_entry", "REGISTER_ADDRESS", .u64, none⟩,
-  ⟨"ManifestEntry.file_size", .manifestEntry, .get, "manifest_entry", "FILE_SIZE", .u64, none⟩,
-  ⟨"ManifestEntry.file_info", .manifestEntry, .get, "manifest_entry", "FILE_FORMAT_INFO", .fileInfo, none⟩,
-  ⟨"ManifestEntry.sha1_hash", .manifestEntry, .get, "manifest_entry", "SHA1_HASH", .sha1, none⟩
-]
-
-/-- structural accessors modelled by hand: (name, register constants referenced, accessors called) -/
-def handModelled : List (String × List (String × String) × List String) := [
-  ("Abrm.new", [("abrm", "DEVICE_CAPABILITY")], []),
-  ("Abrm.sbrm", [], ["Abrm.sbrm_address"]),
-  ("Abrm.manifest_table", [], ["Abrm.manifest_table_address"]),
-  ("Abrm.device_capability", [], []),
-  ("Sbrm.new", [("sbrm", "U3VCP_CAPABILITY_REGISTER")], []),
-  ("Sbrm.sirm", [], ["Sbrm.sirm_address"]),
-  ("Sbrm.u3v_capability", [], []),
-  ("Sirm.new", [], []),
-  ("ManifestTable.new", [], []),
-  ("ManifestTable.entries", [], []),
-  ("ManifestEntry.new", [], [])
-]
-
-/-- capability predicates: (struct, predicate, bit tested by `is_bit_set!`) -/
-def capBits : List (String × String × Nat) := [
-  ("DeviceCapability", "is_user_defined_name_supported", 0),
-  ("DeviceCapability", "is_family_name_supported", 8),
-  ("DeviceCapability", "is_multi_event_supported", 12),
-  ("DeviceCapability", "is_stacked_commands_supported", 13),
-  ("DeviceCapability", "is_device_software_interface_version_supported", 14),
-  ("U3VCapablitiy", "is_sirm_available", 0),
-  ("U3VCapablitiy", "is_eirm_available", 1),
-  ("U3VCapablitiy", "is_iidc2_available", 2)
-]
-
-/-- `DeviceConfiguration` bit tests (struct, predicate, bit) -/
-def cfgBits : List (String × String × Nat) := [
-  ("DeviceConfiguration", "is_multi_event_enabled", 1)
-]
-
-/-- `DeviceConfiguration` mutators: (method, `set_bit`/`unset_bit`, bit) -/
-def cfgOps : List (String × String × Nat) := [
-  ("set_multi_event_enable_bit", "set_bit", 1),
-  ("disable_multi_event", "unset_bit", 1)
-]
-
-/-- bit fields of the hand-modelled decoders: (function, field, shift, mask); a field
-without `& mask` in the source (a plain `raw >> s` on a u32) gets the mask of the bits
-that can be set after the shift, `0xFFFF_FFFF >> s` -/
-def bitFields : List (String × String × Nat × Nat) := [
-  ("Abrm.gencp_version", "major", 16, 0xFFFF),
-  ("Abrm.gencp_version", "minor", 0, 0xFFFF),
-  ("Sbrm.u3v_version", "major", 16, 0xFFFF),
-  ("Sbrm.u3v_version", "minor", 0, 0xFFFF),
-  ("Sirm.payload_size_alignment", "exponent", 24, 0xFF),
-  ("Sirm.is_stream_enable", "bit", 0, 0x1),
-  ("ManifestEntry.genicam_file_version", "major", 24, 0xFF),
-  ("ManifestEntry.genicam_file_version", "minor", 16, 0xFF),
-  ("ManifestEntry.genicam_file_version", "patch", 0, 0xFFFF),
-  ("GenICamFileInfo.file_type", "raw", 0, 0x7),
-  ("GenICamFileInfo.compression_type", "raw", 10, 0x3F),
-  ("GenICamFileInfo.schema_version", "major", 24, 0xFF),
-  ("GenICamFileInfo.schema_version", "minor", 16, 0xFF)
-]
-
-/-- `impl ParseBytes for u3v::BusSpeed`: raw value ↦ variant; anything else is `InvalidDevice` -/
-def busSpeed : List (Nat × String) := [(1, "LowSpeed"), (2, "FullSpeed"), (4, "HighSpeed"), (8, "SuperSpeed"), (16, "SuperSpeedPlus")]
-
-/-- `GenICamFileInfo::file_type` arms -/
-def fileType : List (Nat × String) := [(0, "DeviceXml"), (1, "BufferXml")]
-
-/-- `GenICamFileInfo::compression_type` arms -/
-def compressionType : List (Nat × String) := [(0, "Uncompressed"), (1, "Zip")]
-
-/-- `ParseBytes` newtypes: (type, underlying numeric codec) -/
-def newtypes : List (String × String) := [("DeviceCapability", "u64"), ("DeviceConfiguration", "u64"), ("GenICamFileInfo", "u32"), ("U3VCapablitiy", "u64")]
-
-/-- setter ↦ getter that reads the same register back -/
-def pairs : List (String × String) := [
-  ("Abrm.set_user_defined_name", "Abrm.user_defined_name"),
-  ("Abrm.write_device_configuration", "Abrm.device_configuration"),
-  ("Sirm.disable_stream", "Sirm.is_stream_enable"),
-  ("Sirm.enable_stream", "Sirm.is_stream_enable"),
-  ("Sirm.set_maximum_leader_size", "Sirm.maximum_leader_size"),
-  ("Sirm.set_maximum_trailer_size", "Sirm.maximum_trailer_size"),
-  ("Sirm.set_payload_final_transfer1_size", "Sirm.payload_final_transfer1_size"),
-  ("Sirm.set_payload_final_transfer2_size", "Sirm.payload_final_transfer2_size"),
-  ("Sirm.set_payload_transfer_count", "Sirm.payload_transfer_count"),
-  ("Sirm.set_payload_transfer_size", "Sirm.payload_transfer_size")
-]
-
-end CamVerif.Gen.RegMap
+#eval (throw (IO.userError "CamVerif.Gen.RegMap: generator refused the source, see comment above") : IO Unit)
+theorem CamVerif.Gen.RegMap.generator_refused : False := by decide
